@@ -89,7 +89,7 @@ impl ExternalPersistHelper {
     ensures
         // a read response is accepted only if it authenticates under the nonce of the last request
         r == (received_hmac@ == hmac_sha256(self.shared_secret@, framing(self.shared_secret@, self.last_nonce@, recs_of(*kvs)))),   //[C17.check-hmac.uses-last-nonce]
-//@sub /received_hmac == hmac/ => vx_vec_eq_arr(&received_hmac, &hmac)
+//@sub /received_hmac (!)?==? (hmac\b|compute_shared_hmac\(&self\.shared_secret, &self\.last_nonce, &?kvs\))/ => \1vx_vec_eq_arr(&received_hmac, &\2)
 //@end
 
 // client_hmac / server_hmac (one-byte role nonces 0x01 / 0x02 through the same compute_shared_hmac) are not under contract
